@@ -43,13 +43,17 @@ ASSUMPTIONS = [
     'FIND of an empty needle: the model follows the code (position = start_num while start_num <= LEN+1)',
 ]
 TRUSTED = ['modelled, not verified: str slicing/find/replace, re.sub, Decimal.quantize/format, float repr']
-REQUIRED_BUCKETS = ['thread', 'ambient-context', 'float-as-text', 'left', 'right', 'mid', 'replace', 'find', 'substitute', 'trim', 'upper', 'lower', 'exact', 'len',
+REQUIRED_BUCKETS = ['lookalike', 'thread', 'ambient-context', 'float-as-text', 'left', 'right', 'mid', 'replace', 'find', 'substitute', 'trim', 'upper', 'lower', 'exact', 'len',
                     'concatenate', 'amp', 'text', 'text:tie', 'left:negative', 'mid:negative', 'number-as-text',
                     'fractional-count', 'malformed']
 EXHAUSTIVE = False
 
 ALPHA = ['a', 'A', 'b', ' ', '€']
+# characters that look like (or are, for Python's str.split/strip) white space but are NOT the space character
+LOOKALIKES = ['\t', '\n', '\r', '\x0b', '\x0c', '\x1c', '\x1d', '\x1e', '\x1f', '\x85', '\xa0', '\u1680'] + \
+    [chr(c) for c in range(0x2000, 0x200b)] + ['\u2028', '\u2029', '\u202f', '\u205f', '\u3000', '\u200b', '\ufeff']
 S_ = core.enc_text
+_LOOK_CP = {str(ord(ch)) for ch in LOOKALIKES}
 ERRS = ['e:' + t for t in ('na', 'div0', 'value')]
 
 
@@ -279,6 +283,34 @@ def cases(tier, rng):
             yield second('find', [S_(needle), tok, n_(10)])
             yield mk('substitute', [tok, S_(needle), S_('x')])
             yield mk('substitute', [tok, S_(needle), S_('x'), n_(2)])
+    # --- whitespace LOOK-ALIKES are ordinary characters (only U+0020 is a space for TRIM): alone, doubled, at the
+    #     ends, between words, mixed with real spaces -- through TRIM and every slicing / search function
+    for ch in LOOKALIKES:
+        pats = [ch, ch + ch, ch + 'a', 'a' + ch, 'a' + ch + 'b', 'a' + ch + ch + 'b', ' ' + ch + ' ', 'a ' + ch + ' b',
+                ch + ' a  b ' + ch, 'a' + ch + ' ' + ch + 'b', '  ' + ch + ch + '  a', 'a ' + ch]
+        for t in pats:
+            yield case('trim', [S_(t)])
+            for fn in ('upper', 'lower', 'len'):
+                yield case(fn, [S_(t)])
+            for n in (0, 1, 2, 3):
+                yield case('left', [S_(t), n_(n)])
+                yield case('right', [S_(t), n_(n)])
+                yield case('mid', [S_(t), n_(n + 1), n_(2)])
+            yield case('replace', [S_(t), n_(2), n_(1), S_(ch)])
+            for f in (ch, ' ', 'b', ch + ch):
+                yield case('find', [S_(f), S_(t)])
+                yield case('find', [S_(f), S_(t), n_(2)])
+                yield case('substitute', [S_(t), S_(f), S_('x')])
+                yield case('substitute', [S_(t), S_(f), S_(' '), n_(2)])
+            yield case('exact', [S_(t), S_(t.replace(ch, ' '))])
+            yield case('concatenate', [S_(t), S_(ch)])
+            yield case('amp', [S_(t), S_(ch)])
+        yield case('trim', [S_('a' + ch + ' b')], via='f')
+        yield case('trim', [S_(ch + ' a ' + ch)], via='f')
+    mixed = ''.join(LOOKALIKES)
+    for t in (mixed, ' ' + mixed + ' ', mixed[:9] + '  ' + mixed[9:], ' \t a\n \n b\xa0 '):
+        for fn in ('trim', 'upper', 'lower', 'len'):
+            yield case(fn, [S_(t)])
     # --- fractional counts (truncated like Excel; negative ones are #VALUE!)
     fr = [Fraction(1, 2), Fraction(3, 2), Fraction(11, 4), Fraction(-1, 2), Fraction(41, 4), Fraction(-3, 2),
           Fraction(1, 4), Fraction(3, 4)]
@@ -731,6 +763,8 @@ def bucket(c):
         return 'thread' if 'thread' in c['env'] else 'ambient-context'
     fn, a = c['fn'], c['args']
     kinds = _kinds(c)
+    if fn != 'text' and a and a[0].startswith('s:') and _LOOK_CP & set(a[0][2:].split(',')) and governed(c):
+        return 'lookalike'
     if fn == 'text':
         if kinds[0] == 'n' and kinds[1] == 's':
             x, F = core.dec(a[0]), parse_fmt(core.dec(a[1]))
